@@ -1,10 +1,593 @@
 (* C56: lemmas about the classical reversible model (Disc/ArithModel.v). *)
-From Coq Require Import List ZArith Bool Lia.
+From Coq Require Import List ZArith Bool Lia Arith.
 From PLV Require Import Disc.ArithModel.
 Import ListNotations.
 Open Scope Z_scope.
 
+(* ------------------------------------------------------------------ basics *)
 Lemma upd_same : forall s i b, upd s i b i = b.
 Proof. intros; unfold upd; now rewrite Nat.eqb_refl. Qed.
 Lemma upd_other : forall s i b j, j <> i -> upd s i b j = s j.
-Proof. intros s i b j H; unfold upd. destruct (Nat.eqb j i) eqn:E; [apply Nat.eqb_eq in E; contradiction | reflexivity]. Qed.
+Proof. intros s i b j H; unfold upd. destruct (Nat.eqb_spec j i); [contradiction | reflexivity]. Qed.
+
+Lemma eqb_t : forall b, Bool.eqb b true = b.
+Proof. destruct b; reflexivity. Qed.
+
+Lemma run_app : forall a b s, run (a ++ b) s = match run a s with Some s1 => run b s1 | None => None end.
+Proof.
+  induction a as [|g a IH]; intros b s; cbn [run app]; [reflexivity|].
+  destruct (apply_gate g s); [apply IH | reflexivity].
+Qed.
+
+Definition zeroed (s : st) (l : list nat) : Prop := forall w, In w l -> s w = false.
+
+Lemma val_le_ext : forall l s t, (forall w, In w l -> s w = t w) -> val_le s l = val_le t l.
+Proof.
+  induction l as [|w l IH]; intros s t H; cbn [val_le]; [reflexivity|].
+  rewrite (H w (or_introl eq_refl)), (IH s t); [reflexivity | intros; apply H; now right].
+Qed.
+
+Lemma val_le_range : forall l s, 0 <= val_le s l < 2 ^ Z.of_nat (length l).
+Proof.
+  induction l as [|w l IH]; intros s; cbn [val_le length]; [cbn; lia|].
+  rewrite Nat2Z.inj_succ, Z.pow_succ_r by lia. specialize (IH s). destruct (s w); cbn [b2z]; lia.
+Qed.
+
+Lemma val_le_zeroed : forall l s, zeroed s l -> val_le s l = 0.
+Proof.
+  induction l as [|w l IH]; intros s H; cbn [val_le]; [reflexivity|].
+  rewrite (H w (or_introl eq_refl)), IH; [reflexivity | intros v Hv; apply H; now right].
+Qed.
+
+(* one-bit-plus-rest modular arithmetic:  b + 2 (A mod m) = (b + 2A) mod 2m *)
+Lemma bit_mod : forall b A m, 0 < m -> 0 <= b < 2 -> b + 2 * (A mod m) = (b + 2 * A) mod (2 * m).
+Proof.
+  intros b A m Hm Hb.
+  pose proof (Z.mod_pos_bound A m Hm) as HR.
+  pose proof (Z.div_mod A m ltac:(lia)) as HD.
+  apply Z.mod_unique with (q := A / m); [left; lia | nia].
+Qed.
+
+Lemma pow2_pos : forall n : nat, 0 < 2 ^ Z.of_nat n.
+Proof. intros; apply Z.pow_pos_nonneg; lia. Qed.
+
+Lemma b2z_range : forall b, 0 <= b2z b < 2.
+Proof. destruct b; cbn; lia. Qed.
+
+(* ------------------------------------------------------------------ QubitSum, QubitCarry, TemporaryAND *)
+Lemma qubit_sum_ok : forall a b c s, a <> c -> b <> c ->
+  exists s', run (qubit_sum a b c) s = Some s' /\
+             s' c = xorb (s a) (xorb (s b) (s c)) /\ (forall i, i <> c -> s' i = s i).
+Proof.
+  intros a b c s Hac Hbc. eexists; split; [reflexivity|]. split.
+  - cbn [ctrl_ok forallb fst snd]. rewrite upd_same, (upd_other _ _ _ a Hac), upd_same.
+    destruct (s a), (s b), (s c); reflexivity.
+  - intros i Hi. now rewrite !upd_other.
+Qed.
+
+Lemma qubit_carry_ok : forall a b c d s, a <> c -> a <> d -> b <> c -> b <> d -> c <> d ->
+  exists s', run (qubit_carry a b c d) s = Some s' /\
+             s' c = xorb (s b) (s c) /\
+             s' d = xorb (andb (s b) (s c)) (xorb (s d) (andb (xorb (s b) (s c)) (s a))) /\
+             (forall i, i <> c -> i <> d -> s' i = s i).
+Proof.
+  intros a b c d s Hac Had Hbc Hbd Hcd. eexists; split; [reflexivity|].
+  cbn [ctrl_ok forallb fst snd]. repeat split.
+  - rewrite (upd_other _ d _ c Hcd), upd_same, (upd_other _ d _ c Hcd), (upd_other _ d _ b Hbd).
+    destruct (s b), (s c); reflexivity.
+  - rewrite upd_same, (upd_other _ c _ d (not_eq_sym Hcd)), upd_same,
+            (upd_other _ c _ a Hac), (upd_other _ d _ a Had), upd_same,
+            (upd_other _ d _ c Hcd), (upd_other _ d _ b Hbd).
+    destruct (s a), (s b), (s c), (s d); reflexivity.
+  - intros i Hc Hd. now rewrite !upd_other.
+Qed.
+
+Lemma temporary_and_ok : forall cv0 cv1 a b t s, a <> t -> b <> t -> s t = false ->
+  exists s', run (temporary_and cv0 cv1 a b t) s = Some s' /\
+             s' t = andb (Bool.eqb (s a) cv0) (Bool.eqb (s b) cv1) /\ (forall i, i <> t -> s' i = s i).
+Proof.
+  intros cv0 cv1 a b t s Ha Hb Ht. unfold temporary_and. cbn [run apply_gate]. rewrite Ht.
+  eexists; split; [reflexivity|]. split.
+  - rewrite upd_same. cbn [ctrl_ok forallb fst snd]. now rewrite andb_true_r.
+  - intros i Hi. now rewrite upd_other.
+Qed.
+
+Lemma temporary_and_adj_ok : forall cv0 cv1 a b t s, a <> t -> b <> t ->
+  s t = andb (Bool.eqb (s a) cv0) (Bool.eqb (s b) cv1) ->
+  exists s', run [GAndAdj [(a, cv0); (b, cv1)] t] s = Some s' /\ s' t = false /\ (forall i, i <> t -> s' i = s i).
+Proof.
+  intros cv0 cv1 a b t s Ha Hb Ht. cbn [run apply_gate ctrl_ok forallb fst snd]. rewrite Ht, andb_true_r, xorb_nilpotent.
+  eexists; split; [reflexivity|]. split; [apply upd_same | intros i Hi; now rewrite upd_other].
+Qed.
+
+(* outside its documented domain the elbow is rejected by the model *)
+Lemma temporary_and_domain : forall cs t s, s t = true -> run [GAnd cs t] s = None.
+Proof. intros cs t s H. cbn [run apply_gate]. now rewrite H. Qed.
+
+(* ------------------------------------------------------------------ disjointness bookkeeping *)
+Lemma NoDup_app_inv : forall (a b : list nat), NoDup (a ++ b) ->
+  NoDup a /\ NoDup b /\ (forall x, In x a -> ~ In x b).
+Proof.
+  induction a as [|x a IH]; intros b H; cbn [app] in *.
+  - repeat split; [constructor | assumption | intros ? []].
+  - inversion H as [|? ? Hx Hn]; subst. destruct (IH b Hn) as (Ha & Hb & Hd).
+    repeat split; [constructor; [intro Hin; apply Hx, in_or_app; now left | assumption] | assumption |].
+    intros y [->|Hy]; [intro Hin; apply Hx, in_or_app; now right | now apply Hd].
+Qed.
+
+Lemma half_adder : forall r k, b2z (xorb r k) + 2 * b2z (k && r) = b2z r + b2z k.
+Proof. destruct r, k; reflexivity. Qed.
+Lemma full_adder : forall x y c,
+  b2z (xorb (xorb x y) c) + 2 * b2z (xorb (andb (xorb x c) (xorb y c)) c) = b2z x + b2z y + b2z c.
+Proof. destruct x, y, c; reflexivity. Qed.
+
+(* ------------------------------------------------------------------ Incrementer (elbow ladder) *)
+Lemma inc_lvl_step : forall c ri rn rs wi ws,
+  inc_lvl c (ri :: rn :: rs) (wi :: ws) = AND c ri wi :: inc_lvl wi (rn :: rs) ws ++ [CNOT wi rn; ANDadj c ri wi].
+Proof. reflexivity. Qed.
+
+Lemma inc_lvl_spec : forall rs c ws s,
+  NoDup rs -> NoDup ws -> ~ In c rs -> ~ In c ws -> (forall w, In w rs -> ~ In w ws) ->
+  (length rs <= S (length ws))%nat -> zeroed s ws ->
+  exists s', run (inc_lvl c rs ws) s = Some s' /\
+    (forall i, ~ In i (tl rs) -> s' i = s i) /\
+    val_le s' (tl rs) = (val_le s (tl rs) + b2z (s c && s (hd O rs))) mod 2 ^ Z.of_nat (length (tl rs)).
+Proof.
+  induction rs as [|ri rs' IH]; intros c ws s Hrs Hws Hcr Hcw Hd Hlen Hz.
+  - exists s. cbn. repeat split; auto. now rewrite Z.mod_1_r.
+  - destruct rs' as [|rn rs''].
+    + exists s. cbn. repeat split; auto. now rewrite Z.mod_1_r.
+    + destruct ws as [|wi ws']; [cbn in Hlen; lia|].
+      (* disjointness facts *)
+      inversion Hrs as [|? ? Hri Hrs']; subst. inversion Hrs' as [|? ? Hrn Hrs'']; subst.
+      inversion Hws as [|? ? Hwi Hws']; subst.
+      assert (Hcri : c <> ri) by (intro; subst; apply Hcr; now left).
+      assert (Hcrn : c <> rn) by (intro; subst; apply Hcr; right; now left).
+      assert (Hcwi : c <> wi) by (intro; subst; apply Hcw; now left).
+      assert (Hriwi : ri <> wi) by (intro; subst; apply (Hd wi); now left).
+      assert (Hrnwi : rn <> wi) by (intro; subst; apply (Hd wi); [right|]; now left).
+      assert (Hrirn : ri <> rn) by (intro; subst; apply Hri; now left).
+      assert (Hwirs : ~ In wi (rn :: rs'')) by (intro Hin; apply (Hd wi); [now right | now left]).
+      assert (Hzwi : s wi = false) by (apply Hz; now left).
+      set (s1 := upd s wi (s c && s ri)).
+      assert (Hz1 : zeroed s1 ws').
+      { intros w Hw. unfold s1. rewrite upd_other; [apply Hz; now right | intro; subst; contradiction]. }
+      destruct (IH wi ws' s1 Hrs' Hws' Hwirs Hwi
+                  ltac:(intros w Hw Hin; apply (Hd w); [now right | now right])
+                  ltac:(cbn [length] in *; lia) Hz1) as (s2 & Hrun2 & Hfr2 & Hval2).
+      cbn [tl hd length] in *.
+      (* values read back from s2 *)
+      assert (H2wi : s2 wi = (s c && s ri)).
+      { rewrite Hfr2; [unfold s1; apply upd_same | intro Hin; apply Hwirs; now right]. }
+      assert (H2c : s2 c = s c).
+      { rewrite Hfr2; [unfold s1; now rewrite upd_other | intro Hin; apply Hcr; right; now right]. }
+      assert (H2ri : s2 ri = s ri).
+      { rewrite Hfr2; [unfold s1; now rewrite upd_other | intro Hin; apply Hri; now right]. }
+      assert (H2rn : s2 rn = s rn).
+      { rewrite Hfr2; [unfold s1; now rewrite upd_other | assumption]. }
+      set (s3 := upd s2 rn (xorb (s2 rn) (s2 wi))).
+      exists (upd s3 wi false). split; [|split].
+      * rewrite inc_lvl_step. cbn [run]. unfold AND at 1. cbn [apply_gate]. rewrite Hzwi.
+        cbn [ctrl_ok forallb fst snd]. rewrite !eqb_t, andb_true_r.
+        fold s1. rewrite run_app, Hrun2.
+        cbn [run apply_gate CNOT ANDadj ctrl_ok forallb fst snd]. rewrite !eqb_t, !andb_true_r. fold s3.
+        assert (Hchk : xorb (s3 wi) (s3 c && s3 ri) = false).
+        { unfold s3. rewrite !upd_other by auto. rewrite H2wi, H2c, H2ri. apply xorb_nilpotent. }
+        rewrite Hchk. reflexivity.
+      * intros i Hi. unfold upd at 1. destruct (Nat.eqb_spec i wi) as [->|Hiw]; [now rewrite Hzwi|].
+        unfold s3. rewrite upd_other by (intro; subst; apply Hi; now left).
+        rewrite Hfr2 by (intro Hin; apply Hi; now right). unfold s1. now rewrite upd_other.
+      * cbn [val_le].
+        assert (Hv4 : val_le (upd s3 wi false) rs'' = val_le s2 rs'').
+        { apply val_le_ext. intros w Hw. rewrite upd_other by (intro; subst; apply Hwirs; now right).
+          unfold s3. rewrite upd_other; [reflexivity | intro; subst; contradiction]. }
+        assert (Hv1 : val_le s1 rs'' = val_le s rs'').
+        { apply val_le_ext. intros w Hw. unfold s1. rewrite upd_other; [reflexivity | intro; subst; apply Hwirs; now right]. }
+        rewrite Hv4, Hval2, Hv1. rewrite (upd_other _ wi _ rn Hrnwi). unfold s3. rewrite upd_same, H2rn, H2wi.
+        assert (H1wi : s1 wi = (s c && s ri)) by (unfold s1; apply upd_same).
+        assert (H1rn : s1 rn = s rn) by (unfold s1; now rewrite upd_other).
+        rewrite H1wi, H1rn.
+        rewrite Nat2Z.inj_succ, Z.pow_succ_r by lia.
+        rewrite bit_mod by (try apply pow2_pos; apply b2z_range).
+        f_equal. pose proof (half_adder (s rn) (s c && s ri)). lia.
+Qed.
+
+Lemma In_firstn_self : forall (l : list nat) n x, In x (firstn n l) -> In x l.
+Proof.
+  induction l as [|a l IH]; intros [|n] x H; cbn [firstn] in H; try contradiction.
+  destruct H as [->|H]; [now left | right; eapply IH; eauto].
+Qed.
+Lemma NoDup_firstn : forall (l : list nat) n, NoDup l -> NoDup (firstn n l).
+Proof.
+  induction l as [|a l IH]; intros [|n] H; cbn [firstn]; try constructor.
+  - inversion H; subst. intro Hin. apply In_firstn_self in Hin. contradiction.
+  - inversion H; subst. now apply IH.
+Qed.
+
+Lemma val_le_firstn : forall l n s, val_le s (firstn n l) = val_le s l mod 2 ^ Z.of_nat n.
+Proof.
+  induction l as [|w l IH]; intros n s.
+  - rewrite firstn_nil. cbn [val_le]. now rewrite Z.mod_0_l by (pose proof (pow2_pos n); lia).
+  - destruct n as [|n]; cbn [firstn val_le]; [now rewrite Z.mod_1_r|].
+    rewrite IH, Nat2Z.inj_succ, Z.pow_succ_r by lia.
+    apply bit_mod; [apply pow2_pos | apply b2z_range].
+Qed.
+
+Lemma incrementer_le_spec : forall rs ws s,
+  NoDup rs -> NoDup ws -> (forall w, In w rs -> ~ In w ws) ->
+  (length rs <= S (length ws))%nat -> zeroed s ws ->
+  exists s', run (inc_le rs ws) s = Some s' /\
+    (forall i, ~ In i rs -> s' i = s i) /\
+    val_le s' rs = (val_le s rs + 1) mod 2 ^ Z.of_nat (length rs).
+Proof.
+  intros rs ws s Hrs Hws Hd Hlen Hz.
+  destruct rs as [|r0 rs']; [exists s; cbn; repeat split; auto|].
+  destruct rs' as [|r1 rs''].
+  - eexists; split; [reflexivity|]. split.
+    + intros i Hi. rewrite upd_other; [reflexivity | intro; subst; apply Hi; now left].
+    + cbn [val_le length ctrl_ok forallb]. rewrite upd_same. destruct (s r0); reflexivity.
+  - inversion Hrs as [|? ? Hr0 Hrs']; subst.
+    destruct (inc_lvl_spec (r1 :: rs'') r0 ws s Hrs' Hws Hr0
+                ltac:(apply Hd; now left)
+                ltac:(intros w Hw; apply Hd; now right)
+                ltac:(cbn [length] in *; lia) Hz) as (s2 & Hrun & Hfr & Hval).
+    cbn [tl hd length] in *.
+    inversion Hrs' as [|? ? Hr1 Hrs'']; subst.
+    assert (H01 : r0 <> r1) by (intro; subst; apply Hr0; now left).
+    assert (H2r0 : s2 r0 = s r0) by (apply Hfr; intro; apply Hr0; now right).
+    assert (H2r1 : s2 r1 = s r1) by (apply Hfr; assumption).
+    set (s3 := upd s2 r1 (xorb (s2 r1) (s2 r0))).
+    exists (upd s3 r0 (xorb (s3 r0) true)). split; [|split].
+    + unfold inc_le. rewrite run_app, Hrun.
+      cbn [run apply_gate CNOT XG ctrl_ok forallb fst snd]. rewrite eqb_t, andb_true_r. reflexivity.
+    + intros i Hi. rewrite upd_other by (intro; subst; apply Hi; now left).
+      unfold s3. rewrite upd_other by (intro; subst; apply Hi; right; now left).
+      apply Hfr. intro; apply Hi; right; now right.
+    + cbn [val_le]. rewrite upd_same, (upd_other _ r0 _ r1 (not_eq_sym H01)).
+      unfold s3 at 1 2. rewrite (upd_other _ r1 _ r0 H01), upd_same, H2r0, H2r1.
+      assert (Hv : val_le (upd s3 r0 (xorb (s3 r0) true)) rs'' = val_le s2 rs'').
+      { apply val_le_ext. intros w Hw. rewrite upd_other by (intro; subst; apply Hr0; now right).
+        unfold s3. rewrite upd_other; [reflexivity | intro; subst; contradiction]. }
+      rewrite Hv, Hval.
+      rewrite !Nat2Z.inj_succ, !Z.pow_succ_r by lia.
+      rewrite bit_mod by (try apply pow2_pos; apply b2z_range).
+      rewrite bit_mod by (try (pose proof (pow2_pos (length rs'')); lia); apply b2z_range).
+      f_equal. pose proof (half_adder (s r1) (s r0)). rewrite andb_comm in H.
+      destruct (s r0), (s r1); cbn [b2z xorb andb] in *; lia.
+Qed.
+
+(* ------------------------------------------------------------------ SemiAdder (ripple carry with elbows) *)
+Lemma adder_body_step_x : forall c xi xs yi yn ys wi ws,
+  adder_body c (xi :: xs) (yi :: yn :: ys) (wi :: ws) =
+  [CNOT c xi; CNOT c yi; AND xi yi wi; CNOT c wi] ++ adder_body wi xs (yn :: ys) ws
+  ++ [CNOT c wi; ANDadj xi yi wi; CNOT c xi; CNOT xi yi].
+Proof. reflexivity. Qed.
+Lemma adder_body_step_0 : forall c yi yn ys wi ws,
+  adder_body c [] (yi :: yn :: ys) (wi :: ws) =
+  [AND c yi wi] ++ adder_body wi [] (yn :: ys) ws ++ [ANDadj c yi wi; CNOT c yi].
+Proof. reflexivity. Qed.
+
+Ltac notin_solve :=
+  match goal with
+  | |- ?a <> ?b => intro; subst; eauto 6 with datatypes
+  | |- ~ In _ _ => intro; eauto 6 with datatypes
+  end.
+
+Lemma adder_body_spec : forall ys c xs ws s,
+  NoDup xs -> NoDup ys -> NoDup ws ->
+  ~ In c xs -> ~ In c ys -> ~ In c ws ->
+  (forall w, In w xs -> ~ In w ys) -> (forall w, In w xs -> ~ In w ws) -> (forall w, In w ys -> ~ In w ws) ->
+  (length ys <= S (length ws))%nat -> zeroed s ws ->
+  exists s', run (adder_body c xs ys ws) s = Some s' /\
+    (forall i, ~ In i ys -> s' i = s i) /\
+    val_le s' ys = (val_le s (firstn (length ys) xs) + val_le s ys + b2z (s c)) mod 2 ^ Z.of_nat (length ys).
+Proof.
+  induction ys as [|yi ys' IH]; intros c xs ws s Hxs Hys Hws Hcx Hcy Hcw Hxy Hxw Hyw Hlen Hz.
+  - exists s. cbn. repeat split; auto. now rewrite Z.mod_1_r.
+  - destruct ys' as [|yn ys''].
+    + (* most significant bit *)
+      assert (Hcyi : c <> yi) by (intro; subst; apply Hcy; now left).
+      destruct xs as [|xt xs'].
+      * eexists; split; [reflexivity|]. split.
+        -- intros i Hi. rewrite upd_other; [reflexivity | intro; subst; apply Hi; now left].
+        -- cbn [val_le length firstn ctrl_ok forallb fst snd]. rewrite upd_same, eqb_t, andb_true_r.
+           destruct (s yi), (s c); reflexivity.
+      * assert (Hxtyi : xt <> yi) by (intro; subst; apply (Hxy yi); now left).
+        eexists; split; [reflexivity|]. split.
+        -- intros i Hi. rewrite !upd_other; try reflexivity; intro; subst; apply Hi; now left.
+        -- cbn [val_le length firstn ctrl_ok forallb fst snd].
+           rewrite upd_same, !eqb_t, !andb_true_r, upd_same, (upd_other _ yi _ xt Hxtyi).
+           destruct (s yi), (s c), (s xt); reflexivity.
+    + destruct ws as [|wi ws']; [cbn in Hlen; lia|].
+      inversion Hys as [|? ? Hyi Hys']; subst. inversion Hws as [|? ? Hwi Hws']; subst.
+      assert (Hcyi : c <> yi) by (intro; subst; apply Hcy; now left).
+      assert (Hcwi : c <> wi) by (intro; subst; apply Hcw; now left).
+      assert (Hyiwi : yi <> wi) by (intro; subst; apply (Hyw wi); now left).
+      assert (Hwiys : ~ In wi (yn :: ys'')) by (intro Hin; apply (Hyw wi); [now right | now left]).
+      assert (Hcys : ~ In c (yn :: ys'')) by (intro Hin; apply Hcy; now right).
+      assert (Hzwi : s wi = false) by (apply Hz; now left).
+      destruct xs as [|xi xs'].
+      * (* no bit of x left: propagate the carry *)
+        set (s1 := upd s wi (s c && s yi)).
+        assert (Hz1 : zeroed s1 ws').
+        { intros w Hw. unfold s1. rewrite upd_other; [apply Hz; now right | intro; subst; contradiction]. }
+        destruct (IH wi [] ws' s1 ltac:(constructor) Hys' Hws' ltac:(intros []) Hwiys Hwi
+                    ltac:(intros ? []) ltac:(intros ? [])
+                    ltac:(intros w Hw Hin; apply (Hyw w); now right)
+                    ltac:(cbn [length] in *; lia) Hz1) as (s2 & Hrun2 & Hfr2 & Hval2).
+        assert (H2wi : s2 wi = (s c && s yi)) by (rewrite Hfr2 by assumption; unfold s1; apply upd_same).
+        assert (H2c : s2 c = s c) by (rewrite Hfr2 by assumption; unfold s1; now rewrite upd_other).
+        assert (H2yi : s2 yi = s yi) by (rewrite Hfr2 by assumption; unfold s1; now rewrite upd_other).
+        set (sf := upd s2 wi false).
+        exists (upd sf yi (xorb (sf yi) (sf c))). split; [|split].
+        -- rewrite adder_body_step_0. cbn [app run]. unfold AND at 1. cbn [apply_gate]. rewrite Hzwi.
+           cbn [ctrl_ok forallb fst snd]. rewrite !eqb_t, andb_true_r. fold s1. rewrite run_app, Hrun2.
+           cbn [run apply_gate CNOT ANDadj ctrl_ok forallb fst snd]. rewrite !eqb_t, !andb_true_r.
+           rewrite H2wi, H2c, H2yi, xorb_nilpotent.
+           cbn [run apply_gate CNOT ctrl_ok forallb fst snd]. rewrite ?eqb_t, ?andb_true_r. reflexivity.
+        -- intros i Hi. rewrite upd_other by (intro; subst; apply Hi; now left).
+           unfold sf, upd at 1. destruct (Nat.eqb_spec i wi) as [->|Hiw]; [now rewrite Hzwi|].
+           rewrite Hfr2 by (intro Hin; apply Hi; now right). unfold s1. now rewrite upd_other.
+        -- remember (yn :: ys'') as ys' eqn:Eys in *.
+           cbn [length firstn val_le]. rewrite firstn_nil in Hval2. cbn [val_le] in Hval2.
+           assert (Hv : val_le (upd sf yi (xorb (sf yi) (sf c))) ys' = val_le s2 ys').
+           { apply val_le_ext. intros w Hw. rewrite upd_other by (intro; subst; contradiction).
+             unfold sf. rewrite upd_other; [reflexivity | intro; subst; contradiction]. }
+           assert (Hv1 : val_le s1 ys' = val_le s ys').
+           { apply val_le_ext. intros w Hw. unfold s1. rewrite upd_other; [reflexivity | intro; subst; contradiction]. }
+           rewrite Hv, Hval2, Hv1, upd_same. unfold sf. rewrite !upd_other by auto. rewrite H2yi, H2c.
+           unfold s1 at 1. rewrite upd_same.
+           rewrite Nat2Z.inj_succ, Z.pow_succ_r by lia.
+           rewrite bit_mod by (try apply pow2_pos; apply b2z_range).
+           f_equal. pose proof (half_adder (s yi) (s c)). lia.
+      * (* full adder block *)
+        inversion Hxs as [|? ? Hxi Hxs']; subst.
+        assert (Hcxi : c <> xi) by (intro; subst; apply Hcx; now left).
+        assert (Hxiyi : xi <> yi) by (intro; subst; apply (Hxy yi); now left).
+        assert (Hxiwi : xi <> wi) by (intro; subst; apply (Hxw wi); now left).
+        assert (Hxiys : ~ In xi (yn :: ys'')) by (intro Hin; apply (Hxy xi); [now left | now right]).
+        set (sa := upd s xi (xorb (s xi) (s c))).
+        set (sb := upd sa yi (xorb (sa yi) (sa c))).
+        set (sc := upd sb wi (sb xi && sb yi)).
+        set (s1 := upd sc wi (xorb (sc wi) (sc c))).
+        assert (E1 : forall w, w <> xi -> w <> yi -> w <> wi -> s1 w = s w).
+        { intros w H1 H2 H3. unfold s1, sc, sb, sa. now rewrite !upd_other. }
+        assert (H1xi : s1 xi = xorb (s xi) (s c)).
+        { unfold s1, sc, sb, sa. rewrite !upd_other by auto. apply upd_same. }
+        assert (Hbyi : sb yi = xorb (s yi) (s c)).
+        { unfold sb, sa. rewrite upd_same, !upd_other by auto. reflexivity. }
+        assert (H1yi : s1 yi = xorb (s yi) (s c)).
+        { unfold s1, sc. rewrite !upd_other by auto. exact Hbyi. }
+        assert (Hbxi : sb xi = xorb (s xi) (s c)).
+        { unfold sb, sa. rewrite upd_other by auto. apply upd_same. }
+        assert (Hbc : sb c = s c) by (unfold sb, sa; now rewrite !upd_other).
+        assert (H1wi : s1 wi = xorb (xorb (s xi) (s c) && xorb (s yi) (s c)) (s c)).
+        { unfold s1. rewrite upd_same. unfold sc. rewrite upd_same, upd_other by auto. now rewrite Hbxi, Hbyi, Hbc. }
+        assert (H1c : s1 c = s c) by (apply E1; auto).
+        assert (Hz1 : zeroed s1 ws').
+        { intros w Hw. rewrite E1; [apply Hz; now right | | |]; intro; subst.
+          - apply (Hxw xi); [now left | now right].
+          - apply (Hyw yi); [now left | now right].
+          - contradiction. }
+        destruct (IH wi xs' ws' s1 Hxs' Hys' Hws'
+                    ltac:(intro Hin; apply (Hxw wi); [now right | now left]) Hwiys Hwi
+                    ltac:(intros w Hw Hin; apply (Hxy w); now right)
+                    ltac:(intros w Hw Hin; apply (Hxw w); now right)
+                    ltac:(intros w Hw Hin; apply (Hyw w); now right)
+                    ltac:(cbn [length] in *; lia) Hz1) as (s2 & Hrun2 & Hfr2 & Hval2).
+        assert (H2wi : s2 wi = s1 wi) by (apply Hfr2; assumption).
+        assert (H2c : s2 c = s c) by (rewrite Hfr2 by assumption; exact H1c).
+        assert (H2xi : s2 xi = xorb (s xi) (s c)) by (rewrite Hfr2 by assumption; exact H1xi).
+        assert (H2yi : s2 yi = xorb (s yi) (s c)) by (rewrite Hfr2 by assumption; exact H1yi).
+        set (se := upd s2 wi (xorb (s2 wi) (s2 c))).
+        set (sf := upd se wi false).
+        set (sg := upd sf xi (xorb (sf xi) (sf c))).
+        exists (upd sg yi (xorb (sg yi) (sg xi))).
+        assert (Hgxi : sg xi = s xi).
+        { unfold sg. rewrite upd_same. unfold sf, se. rewrite !upd_other by auto. rewrite H2xi, H2c.
+          destruct (s xi), (s c); reflexivity. }
+        assert (Hgyi : sg yi = xorb (s yi) (s c)).
+        { unfold sg, sf, se. rewrite !upd_other by auto. exact H2yi. }
+        split; [|split].
+        -- rewrite adder_body_step_x. cbn [app run]. unfold CNOT at 1 2. cbn [apply_gate].
+           cbn [ctrl_ok forallb fst snd]. rewrite !eqb_t, !andb_true_r. fold sa. fold sb.
+           unfold AND at 1. cbn [apply_gate].
+           assert (Hbwi : sb wi = false) by (unfold sb, sa; rewrite !upd_other by auto; exact Hzwi).
+           rewrite Hbwi. cbn [ctrl_ok forallb fst snd]. rewrite !eqb_t, !andb_true_r. fold sc.
+           unfold CNOT at 1. cbn [apply_gate ctrl_ok forallb fst snd]. rewrite !eqb_t, !andb_true_r. fold s1.
+           rewrite run_app, Hrun2.
+           cbn [run apply_gate CNOT ANDadj ctrl_ok forallb fst snd]. rewrite !eqb_t, !andb_true_r.
+           fold se.
+           assert (Hchk : xorb (se wi) (se xi && se yi) = false).
+           { unfold se. rewrite upd_same, !upd_other by auto. rewrite H2wi, H1wi, H2c, H2xi, H2yi.
+             destruct (s xi), (s yi), (s c); reflexivity. }
+           rewrite Hchk.
+           cbn [run apply_gate CNOT ctrl_ok forallb fst snd]. rewrite ?eqb_t, ?andb_true_r. reflexivity.
+        -- intros i Hi. rewrite upd_other by (intro; subst; apply Hi; now left).
+           destruct (Nat.eq_dec i xi) as [->|Hix]; [exact Hgxi|].
+           unfold sg. rewrite upd_other by assumption.
+           unfold sf, upd at 1. destruct (Nat.eqb_spec i wi) as [->|Hiw]; [now rewrite Hzwi|].
+           unfold se. rewrite upd_other by assumption.
+           rewrite Hfr2 by (intro Hin; apply Hi; now right).
+           apply E1; auto. intro; subst; apply Hi; now left.
+        -- remember (yn :: ys'') as ys' eqn:Eys in *.
+           cbn [length firstn val_le].
+           assert (Hv : val_le (upd sg yi (xorb (sg yi) (sg xi))) ys' = val_le s2 ys').
+           { apply val_le_ext. intros w Hw. rewrite upd_other by (intro; subst; contradiction).
+             unfold sg, sf, se. rewrite !upd_other; try reflexivity; intro; subst; contradiction. }
+           assert (Hv1 : val_le s1 ys' = val_le s ys').
+           { apply val_le_ext. intros w Hw. apply E1; intro; subst; contradiction. }
+           assert (Hv1x : val_le s1 (firstn (length ys') xs') = val_le s (firstn (length ys') xs')).
+           { apply val_le_ext. intros w Hw. apply In_firstn_self in Hw. apply E1; intro; subst; try contradiction.
+             - apply (Hxy yi); [now right | now left].
+             - apply (Hxw wi); [now right | now left]. }
+           rewrite Hv, Hval2, Hv1, Hv1x, upd_same, Hgyi, Hgxi, H1wi.
+           rewrite Nat2Z.inj_succ, Z.pow_succ_r by lia.
+           rewrite bit_mod by (try apply pow2_pos; apply b2z_range).
+           f_equal. pose proof (full_adder (s xi) (s yi) (s c)).
+           destruct (s xi), (s yi), (s c); cbn [b2z xorb andb] in *; lia.
+Qed.
+
+Lemma adder_le_spec : forall xs ys ws s,
+  NoDup xs -> NoDup ys -> NoDup ws ->
+  (forall w, In w xs -> ~ In w ys) -> (forall w, In w xs -> ~ In w ws) -> (forall w, In w ys -> ~ In w ws) ->
+  xs <> [] -> (length ys <= S (length ws))%nat -> zeroed s ws ->
+  exists s', run (adder_le xs ys ws) s = Some s' /\
+    (forall i, ~ In i ys -> s' i = s i) /\
+    val_le s' ys = (val_le s (firstn (length ys) xs) + val_le s ys) mod 2 ^ Z.of_nat (length ys).
+Proof.
+  intros xs ys ws s Hxs Hys Hws Hxy Hxw Hyw Hne Hlen Hz.
+  destruct xs as [|x0 xs']; [congruence|]. clear Hne.
+  destruct ys as [|y0 ys'].
+  { exists s. cbn. repeat split; auto. }
+  assert (Hx0y0 : x0 <> y0) by (intro; subst; apply (Hxy y0); now left).
+  destruct ys' as [|y1 ys''].
+  - eexists; split; [reflexivity|]. split.
+    + intros i Hi. rewrite upd_other; [reflexivity | intro; subst; apply Hi; now left].
+    + cbn [val_le length firstn ctrl_ok forallb fst snd]. rewrite upd_same, eqb_t, andb_true_r.
+      destruct (s y0), (s x0); reflexivity.
+  - destruct ws as [|w0 ws']; [cbn in Hlen; lia|].
+    inversion Hxs as [|? ? Hx0 Hxs']; subst. inversion Hys as [|? ? Hy0 Hys']; subst.
+    inversion Hws as [|? ? Hw0 Hws']; subst.
+    assert (Hx0w0 : x0 <> w0) by (intro; subst; apply (Hxw w0); now left).
+    assert (Hy0w0 : y0 <> w0) by (intro; subst; apply (Hyw w0); now left).
+    assert (Hw0ys : ~ In w0 (y1 :: ys'')) by (intro Hin; apply (Hyw w0); [now right | now left]).
+    assert (Hw0xs : ~ In w0 xs') by (intro Hin; apply (Hxw w0); [now right | now left]).
+    assert (Hzw0 : s w0 = false) by (apply Hz; now left).
+    set (s1 := upd s w0 (s x0 && s y0)).
+    assert (Hz1 : zeroed s1 ws').
+    { intros w Hw. unfold s1. rewrite upd_other; [apply Hz; now right | intro; subst; contradiction]. }
+    destruct (adder_body_spec (y1 :: ys'') w0 xs' ws' s1 Hxs' Hys' Hws' Hw0xs Hw0ys Hw0
+                ltac:(intros w Hw Hin; apply (Hxy w); now right)
+                ltac:(intros w Hw Hin; apply (Hxw w); now right)
+                ltac:(intros w Hw Hin; apply (Hyw w); now right)
+                ltac:(cbn [length] in *; lia) Hz1) as (s2 & Hrun2 & Hfr2 & Hval2).
+    assert (H2w0 : s2 w0 = (s x0 && s y0)) by (rewrite Hfr2 by assumption; unfold s1; apply upd_same).
+    assert (H2x0 : s2 x0 = s x0).
+    { rewrite Hfr2 by (intro Hin; apply (Hxy x0); [now left | now right]). unfold s1. now rewrite upd_other. }
+    assert (H2y0 : s2 y0 = s y0) by (rewrite Hfr2 by assumption; unfold s1; now rewrite upd_other).
+    set (sf := upd s2 w0 false).
+    exists (upd sf y0 (xorb (sf y0) (sf x0))). split; [|split].
+    + unfold adder_le. cbn [app run]. unfold AND at 1. cbn [apply_gate]. rewrite Hzw0.
+      cbn [ctrl_ok forallb fst snd]. rewrite !eqb_t, andb_true_r. fold s1. rewrite run_app, Hrun2.
+      cbn [run apply_gate ANDadj ctrl_ok forallb fst snd]. rewrite !eqb_t, !andb_true_r.
+      rewrite H2w0, H2x0, H2y0, xorb_nilpotent.
+      cbn [run apply_gate CNOT ctrl_ok forallb fst snd]. rewrite ?eqb_t, ?andb_true_r. reflexivity.
+    + intros i Hi. rewrite upd_other by (intro; subst; apply Hi; now left).
+      unfold sf, upd at 1. destruct (Nat.eqb_spec i w0) as [->|Hiw]; [now rewrite Hzw0|].
+      rewrite Hfr2 by (intro Hin; apply Hi; now right). unfold s1. now rewrite upd_other.
+    + remember (y1 :: ys'') as ys' eqn:Eys in *.
+      cbn [length firstn val_le].
+      assert (Hv : val_le (upd sf y0 (xorb (sf y0) (sf x0))) ys' = val_le s2 ys').
+      { apply val_le_ext. intros w Hw. rewrite upd_other by (intro; subst; contradiction).
+        unfold sf. rewrite upd_other; [reflexivity | intro; subst; contradiction]. }
+      assert (Hv1 : val_le s1 ys' = val_le s ys').
+      { apply val_le_ext. intros w Hw. unfold s1. rewrite upd_other; [reflexivity | intro; subst; contradiction]. }
+      assert (Hv1x : val_le s1 (firstn (length ys') xs') = val_le s (firstn (length ys') xs')).
+      { apply val_le_ext. intros w Hw. apply In_firstn_self in Hw. unfold s1.
+        rewrite upd_other; [reflexivity | intro; subst; contradiction]. }
+      rewrite Hv, Hval2, Hv1, Hv1x, upd_same. unfold sf. rewrite !upd_other by auto. rewrite H2y0, H2x0.
+      unfold s1 at 1. rewrite upd_same.
+      rewrite Nat2Z.inj_succ, Z.pow_succ_r by lia.
+      rewrite bit_mod by (try apply pow2_pos; apply b2z_range).
+      f_equal. pose proof (half_adder (s y0) (s x0)). lia.
+Qed.
+
+(* big-endian registers, arbitrary wire layout *)
+Lemma semi_adder_spec : forall xw yw ww s,
+  NoDup (xw ++ yw ++ ww) -> xw <> [] -> (length yw <= S (length ww))%nat -> zeroed s ww ->
+  exists s', run (semi_adder xw yw ww) s = Some s' /\
+    (forall i, ~ In i yw -> s' i = s i) /\
+    val_be s' yw = (val_be s xw + val_be s yw) mod 2 ^ Z.of_nat (length yw).
+Proof.
+  intros xw yw ww s Hnd Hne Hlen Hz.
+  destruct (NoDup_app_inv _ _ Hnd) as (Hx & Hyw & Hxd).
+  destruct (NoDup_app_inv _ _ Hyw) as (Hy & Hw & Hyd).
+  set (ws := rev (firstn (length yw - 1) ww)).
+  assert (Hin_ws : forall w, In w ws -> In w ww).
+  { intros w Hin. unfold ws in Hin. apply in_rev in Hin. now apply In_firstn_self in Hin. }
+  destruct (adder_le_spec (rev xw) (rev yw) ws s) as (s' & Hrun & Hfr & Hval).
+  - now apply NoDup_rev.
+  - now apply NoDup_rev.
+  - unfold ws. apply NoDup_rev. now apply NoDup_firstn.
+  - intros w Hx' Hy'. apply in_rev in Hx'. apply in_rev in Hy'. apply (Hxd w Hx'), in_or_app. now left.
+  - intros w Hx' Hw'. apply in_rev in Hx'. apply Hin_ws in Hw'. apply (Hxd w Hx'), in_or_app. now right.
+  - intros w Hy' Hw'. apply in_rev in Hy'. apply Hin_ws in Hw'. exact (Hyd w Hy' Hw').
+  - intro E. apply Hne. apply (f_equal (@rev nat)) in E. now rewrite rev_involutive in E.
+  - unfold ws. rewrite !rev_length, firstn_length. lia.
+  - intros w Hin. apply Hz. now apply Hin_ws.
+  - exists s'. split; [exact Hrun|]. split.
+    + intros i Hi. apply Hfr. intro Hin. apply Hi. now apply in_rev.
+    + unfold val_be. rewrite Hval, rev_length, val_le_firstn, Z.add_mod_idemp_l; [reflexivity|].
+      pose proof (pow2_pos (length yw)); lia.
+Qed.
+
+Lemma incrementer_spec : forall wires work s,
+  NoDup (wires ++ work) -> (length wires <= S (length work))%nat -> zeroed s work ->
+  exists s', run (incrementer wires work) s = Some s' /\
+    (forall i, ~ In i wires -> s' i = s i) /\
+    val_be s' wires = (val_be s wires + 1) mod 2 ^ Z.of_nat (length wires).
+Proof.
+  intros wires work s Hnd Hlen Hz.
+  destruct (NoDup_app_inv _ _ Hnd) as (Hx & Hw & Hd).
+  destruct (incrementer_le_spec (rev wires) work s) as (s' & Hrun & Hfr & Hval).
+  - now apply NoDup_rev.
+  - assumption.
+  - intros w Hin. apply Hd. now apply in_rev.
+  - now rewrite rev_length.
+  - assumption.
+  - exists s'. split; [exact Hrun|]. split.
+    + intros i Hi. apply Hfr. intro Hin. apply Hi. now apply in_rev.
+    + unfold val_be. now rewrite Hval, rev_length.
+Qed.
+
+(* the MCX-ladder fallback as written does not increment: 3 -> 0 on three wires *)
+Lemma incrementer_fallback_wrong :
+  exists s s', run (incrementer_fallback [0; 1; 2]%nat) s = Some s' /\
+               val_be s [0; 1; 2]%nat = 3 /\ val_be s' [0; 1; 2]%nat = 0.
+Proof.
+  exists (fun i => match i with 0%nat => false | _ => true end). eexists. split; [reflexivity|].
+  split; vm_compute; reflexivity.
+Qed.
+
+(* IntegerComparator: canonical layout (control wires 0..n-1, target n), every n <= 4, every value 0..2^n+1,
+   both polarities, every basis input: finite domain, decided by evaluation *)
+Definition cmp_inputs_ok (n : nat) (L : Z) (geq : bool) : bool :=
+  forallb (fun x =>
+    forallb (fun t =>
+      match run (comparator L geq (seq 0 n) n) (set_be (upd zero_st n t) (seq 0 n) x) with
+      | None => false
+      | Some s' => Z.eqb (val_be s' (seq 0 n)) x &&
+                   Bool.eqb (s' n) (xorb t (if geq then L <=? x else x <? L))
+      end) [false; true])
+    (map Z.of_nat (seq 0 (2 ^ n))).
+Definition cmp_all_ok (nmax : nat) : bool :=
+  forallb (fun n => forallb (fun L => cmp_inputs_ok n L true && cmp_inputs_ok n L false)
+                            (map Z.of_nat (seq 0 (2 ^ n + 2)))) (seq 1 nmax).
+Lemma comparator_upto4 : cmp_all_ok 4 = true.
+Proof. vm_compute. reflexivity. Qed.
+
+(* x register and work wires come back unchanged *)
+Lemma semi_adder_restores : forall xw yw ww s,
+  NoDup (xw ++ yw ++ ww) -> xw <> [] -> (length yw <= S (length ww))%nat -> zeroed s ww ->
+  exists s', run (semi_adder xw yw ww) s = Some s' /\ zeroed s' ww /\ val_be s' xw = val_be s xw.
+Proof.
+  intros xw yw ww s Hnd Hne Hlen Hz.
+  destruct (semi_adder_spec xw yw ww s Hnd Hne Hlen Hz) as (s' & Hrun & Hfr & _).
+  destruct (NoDup_app_inv _ _ Hnd) as (_ & Hyw & Hxd).
+  destruct (NoDup_app_inv _ _ Hyw) as (_ & _ & Hyd).
+  exists s'. split; [exact Hrun|]. split.
+  - intros w Hw. rewrite Hfr; [now apply Hz | intro Hy; exact (Hyd w Hy Hw)].
+  - unfold val_be. apply val_le_ext. intros w Hw. apply in_rev in Hw.
+    apply Hfr. intro Hy. apply (Hxd w Hw), in_or_app. now left.
+Qed.
+
+Lemma incrementer_restores : forall wires work s,
+  NoDup (wires ++ work) -> (length wires <= S (length work))%nat -> zeroed s work ->
+  exists s', run (incrementer wires work) s = Some s' /\ zeroed s' work.
+Proof.
+  intros wires work s Hnd Hlen Hz.
+  destruct (incrementer_spec wires work s Hnd Hlen Hz) as (s' & Hrun & Hfr & _).
+  destruct (NoDup_app_inv _ _ Hnd) as (_ & _ & Hd).
+  exists s'. split; [exact Hrun|]. intros w Hw. rewrite Hfr; [now apply Hz | intro Hx; exact (Hd w Hx Hw)].
+Qed.
